@@ -391,9 +391,9 @@ example : ∃ fp fx, filterTables .position { cfg := cfgOf .jaccard (1 / 4) } ex
     filterTables .size { cfg := cfgOf .jaccard (1 / 4) } exA exT exToks 4 = .ok fx ∧
     ∀ row ∈ fp.rows, ∃ row' ∈ fx.rows, row'.drop 1 = row.drop 1 ∧ rowKeys row' = rowKeys row := by
   obtain ⟨fp, hp⟩ := EntryFilters.filterTables_total .position { cfg := cfgOf .jaccard (1 / 4) } exA exT exToks 4 exL exR
-    ex_valid ex_keys
+    ex_valid ex_keys (by decide +kernel)
   obtain ⟨fx, hx⟩ := EntryFilters.filterTables_total .size { cfg := cfgOf .jaccard (1 / 4) } exA exT exToks 4 exL exR
-    ex_valid ex_keys
+    ex_valid ex_keys (by decide +kernel)
   exact ⟨fp, fx, hp, hx, position_subset_size _ exA exT exToks 4 exL exR fp fx ex_valid ex_keys .jaccard (Or.inl rfl)
     (1 / 4) ex_thr rfl rfl exTok_small hp hx⟩
 
